@@ -259,7 +259,9 @@ func (c *Client) SearchLocksVerifiable(limit int, cached bool) (ourLocks, theirL
 			Limit: limit,
 		}
 
-		c.cache.Clear()
+		// The local lock cache is replaced only by a complete listing: a
+		// failed request, or one cut short by the limit, leaves it as it is.
+		var listed []Lock
 
 		for {
 			list, status, err := c.client.SearchVerifiable(c.Remote, body)
@@ -282,7 +284,7 @@ func (c *Client) SearchLocksVerifiable(limit int, cached bool) (ourLocks, theirL
 			}
 
 			for _, l := range list.Ours {
-				c.cache.Add(l)
+				listed = append(listed, l)
 				ourLocks = append(ourLocks, l)
 				if limit > 0 && (len(ourLocks)+len(theirLocks)) >= limit {
 					return ourLocks, theirLocks, nil
@@ -290,7 +292,7 @@ func (c *Client) SearchLocksVerifiable(limit int, cached bool) (ourLocks, theirL
 			}
 
 			for _, l := range list.Theirs {
-				c.cache.Add(l)
+				listed = append(listed, l)
 				theirLocks = append(theirLocks, l)
 				if limit > 0 && (len(ourLocks)+len(theirLocks)) >= limit {
 					return ourLocks, theirLocks, nil
@@ -302,6 +304,11 @@ func (c *Client) SearchLocksVerifiable(limit int, cached bool) (ourLocks, theirL
 			} else {
 				break
 			}
+		}
+
+		c.cache.Clear()
+		for _, l := range listed {
+			c.cache.Add(l)
 		}
 
 		if limit == 0 {
